@@ -121,6 +121,33 @@ func genRequestScenario(prop string, rng *rand.Rand, o requestOpts) *sim.Scenari
 	return sc
 }
 
+// toHandler turns call 0 of a request scenario into the same request made through the HTTP handler
+// (which has no first-TTL and no delay parameter) and regenerates the flows accordingly.
+func toHandler(rng *rand.Rand, sc *sim.Scenario, o *requestOpts) {
+	c := &sc.Calls[0]
+	c.Entry = "http_handler"
+	c.MinTTL = 1
+	c.DelayMs = 50
+	sc.Flows = nil
+	p := "udp"
+	switch {
+	case c.Protocol == "icmp" && c.WantV6:
+		p = "icmp6"
+	case c.Protocol == "icmp":
+		p = "icmp"
+	case c.Protocol == "tcp" && c.Method == "sack":
+		p = "tcp-sack"
+	case c.Protocol == "tcp" && c.Method == "prefer_sack":
+		p = "tcp-prefer"
+	case c.Protocol == "tcp":
+		p = "tcp-syn"
+	case c.WantV6:
+		p = "udp6"
+	}
+	c.Paris = false
+	addRequestFlows(rng, sc, o, p)
+}
+
 func bareTarget(t string) string {
 	if len(t) > 0 && t[0] == '[' {
 		return t[1 : len(t)-1]
